@@ -67,6 +67,10 @@ def gen_cases(rng, tier):
                       (U32, [("a", U32), ("a", U32)]), (U32 - 2, [("r", U32), ("a", U32 - 2), ("r", U32 - 1)])):
         cases.append(["lim%d" % n, "c10", "S:%d:1" % base, ",".join(_recv(0, c, "r%d" % i, ack=1 if k == "a" else 0) for i, (k, c) in enumerate(evs))])
         n += 1
+    # two different requests with one number ahead of a gap: the second one must not displace the first
+    for evs in ([("r", 13), ("r", 13), ("r", 11), ("r", 12), ("r", 14)], [("r", 12), ("r", 13), ("r", 12), ("r", 13), ("r", 11)], [("r", 15), ("r", 15), ("r", 15)]):
+        cases.append(["dup%d" % n, "c10", "S:10:1", ",".join(_recv(0, c, "r%d" % i) for i, (k, c) in enumerate(evs))])
+        n += 1
     # random mixed histories
     nrand = 250 if tier == "quick" else 6000
     for i in range(nrand):
@@ -197,6 +201,11 @@ def oracle(case, impl):
                 exp.append((nxt, s["parked"].pop(nxt)))
                 nxt += 1
             s["next"] = nxt
+        elif cseq in s["parked"]:
+            # a number that is already parked: the waiting request keeps its place, this one is not held (and not delivered)
+            if o not in ("N", "-"):
+                out.append("request %s carries CSeq %d which is already parked: it must be left to the default handling, got %s" % (rid, cseq, o))
+            continue
         else:
             s["parked"][cseq] = rid
             exp = []
